@@ -248,6 +248,10 @@ Ltac kchain :=
              let Hn := fresh "Hn" in let H1 := fresh "Hq" in let H2 := fresh "Hi" in
              assert (Hn : peek_kind r <> Some TColon) by (rewrite Hp; discriminate);
              destruct (IH Hi Hn true) as [H1 H2]; clear IH Hi
+         | IH : Inv src ?ts -> peek_kind ?r <> Some TColon -> (forall _, kq _ _) /\ _, Hi : Inv src ?ts, Hp : peek_kind ?r = Some _ |- _ =>
+             let Hn := fresh "Hn" in let H1 := fresh "Hq" in let H2 := fresh "Hi" in
+             assert (Hn : peek_kind r <> Some TColon) by (rewrite Hp; discriminate);
+             destruct (IH Hi Hn) as [H1 H2]; clear IH Hi
          | _ => kext
          end;
   kfix.
@@ -502,4 +506,131 @@ Proof.
   - exact (k_type_decl _ _ _ H Hi).
 Qed.
 
+(* ------------------------------------------------------------------ expressions *)
+
+Lemma k_postfix : stepk g_postfix p_postfix.
+Proof. intros ts r x H Hi. destruct H as [| ? ? ? ? ? ? ? ? (st & Hst & _) ?]; cbn [p_postfix]; kchain; kdone. Qed.
+
+Lemma postfix_first ts r x : g_postfix ts r x -> peek_kind ts <> Some TColon.
+Proof. intros H. destruct H as [? ? ? ? ? Ht|? ? ? ? ? ? ? Ht]; rewrite (tok_peek' _ _ _ _ Ht); discriminate. Qed.
+
+Lemma k_postfixes ts r post : many g_postfix ts r post -> Inv src ts -> kq (flat_map p_postfix post) (peek_kind r) /\ Inv src r.
+Proof.
+  intros H. induction H as [ts|ts r1 r a l Ha Hl IH]; intros Hi; [split; [exact I|exact Hi]|].
+  destruct (k_postfix _ _ _ Ha Hi) as [Hq Hi1]. destruct (IH Hi1) as [Hq2 Hi2]. split; [|exact Hi2].
+  cbn [flat_map]. eapply kq_app; [exact Hq|exact Hq2|].
+  destruct Hl as [ts0|ts0 r2 r0 a0 l0 Ha0 Hl0]; [right; right; split; reflexivity|left; eapply postfix_first; eauto].
+Qed.
+
+Lemma k_arg_name : stepk g_arg_name p_arg_name.
+Proof. intros ts r x H Hi. destruct H as [|? ? ? (st & Hst & _)]; cbn [p_arg_name]; kchain; kdone. Qed.
+
+Lemma kq_fill_closed a : is_fill a = true -> forall nk, kq (p_arg0 a) nk.
+Proof. destruct a; try discriminate. intros _ nk. exact I. Qed.
+
+Lemma k_expr_all :
+  forall ts r x, g_expr d ts r x -> Inv src ts -> kq (p_expr fx x) (peek_kind r) /\ Inv src r.
+Proof.
+  apply (g_expr_mut d (fun ts r x => Inv src ts -> kq (p_expr fx x) (peek_kind r) /\ Inv src r)
+                      (fun ts r p => Inv src ts -> kq (p_primary fx p) (peek_kind r) /\ Inv src r)
+                      (fun ts r x => Inv src ts -> peek_kind r <> Some TColon -> (forall nk, kq (p_args (fst x)) nk) /\ Inv src r)
+                      (fun ts r a => Inv src ts -> kq (p_arg0 a) (peek_kind r) /\ Inv src r));
+    intros; subst; cbn [fst] in *.
+  - (* expr *) kchain.
+    match goal with Hm : many g_postfix ?a _ _, Hi' : Inv src ?a |- _ => destruct (k_postfixes _ _ _ Hm Hi') as [Hq2 Hi2] end.
+    split; [|assumption]. unfold mk_expr. cbn [p_expr]. eapply kq_app; [eassumption|exact Hq2|].
+    match goal with Hm : many g_postfix _ _ _ |- _ => destruct Hm as [ts0|ts0 r2 r0 a0 l0 Ha0 Hl0] end;
+      [right; right; split; reflexivity|left; eapply postfix_first; eauto].
+  - (* new *) match goal with Hp : g_package_name _ _ _ |- _ => destruct Hp as (tp & Htp & _) end. kchain.
+    split; [|assumption]. rewrite p_new_eq. unfold p_new_args.
+    repeat match goal with |- context [match ?l with [] => _ | _ :: _ => _ end] => destruct l end;
+    repeat match goal with |- context [match ?a with AFill _ => _ | _ => _ end] => destruct a end; kasm.
+  - (* nested *) kchain. kdone. cbn [p_primary]. kasm.
+  - (* ident *) kchain. split; [|assumption]. cbn [p_primary src_id kq]. auto.
+  - (* no arguments *) split; [intros; exact I|assumption].
+  - (* one argument *) kchain. split; [|assumption]. intros nk. cbn [p_args nil_args]. unfold p_arg_line.
+    destruct (is_fill a) eqn:Ef; cbn [andb app kq]; [rewrite app_nil_r; apply kq_closed_app; [now apply kq_fill_closed|exact I]|].
+    rewrite <- app_assoc. eapply kq_app; [exact Hq|exact I|left; assumption].
+  - (* one argument and a comma *) kchain. split; [|assumption]. intros nk. cbn [p_args nil_args]. unfold p_arg_line.
+    destruct (is_fill a) eqn:Ef; cbn [andb app kq]; [rewrite app_nil_r; apply kq_closed_app; [now apply kq_fill_closed|exact I]|].
+    rewrite <- app_assoc. eapply kq_app; [exact Hq|exact I|left; discriminate].
+  - (* several *)
+    match goal with IH : Inv src ?ts -> peek_kind _ <> _ -> (forall _, _) /\ _ |- _ => rename IH into IHl end.
+    kchain.
+    match goal with Hn : peek_kind r <> Some TColon, Hi' : Inv src _ |- _ => destruct (IHl Hi' Hn) as [Hq2 Hi2] end.
+    split; [|assumption]. intros nk. destruct l as [|b l']; [congruence|]. rewrite p_args_cons. unfold p_arg_line. cbn [nil_args].
+    rewrite andb_false_r. cbn [kq]. rewrite <- app_assoc. eapply kq_app; [exact Hq|cbn [app kq]; apply Hq2|left; discriminate].
+  - (* inferred *) kchain. split; [|assumption]. cbn [p_arg0 src_id kq]. auto.
+  - (* spread *) kchain. split; [|assumption]. cbn [p_arg0 src_id kq]. auto.
+  - (* named *) kuse2 k_arg_name. kchain. split; [|assumption]. cbn [p_arg0]. kasm.
+  - (* fill *) kchain. split; [|assumption]. exact I.
+Qed.
+
+Ltac kext ::= first [kuse2 k_type | kuse2 k_named_type | kparams | kuse2 k_func_type | kusec k_item_type_decl | kuse2 k_expr_all].
+
+(* ------------------------------------------------------------------ statements, document *)
+
+Lemma k_extern_name : stepk g_extern_name p_extern_name.
+Proof. intros ts r x H Hi. destruct H as [|? ? ? (st & Hst & _)]; cbn [p_extern_name]; kchain; kdone. Qed.
+
+Lemma k_import_type : stepk (g_import_type d) (p_import_type fx).
+Proof.
+  intros ts r x H Hi. destruct H as [? ? ? (tp & Htp & _)| | |]; cbn [p_import_type]; [kchain; kdone|kchain; kdone| |kchain; kdone].
+  destruct (k_inline_interface _ _ _ H Hi) as [Hq Hi2]. split; [apply Hq|exact Hi2].
+Qed.
+
+Lemma k_statement : stepc (g_statement d) (p_statement fx).
+Proof.
+  intros ts r x H Hi. destruct H; cbn [p_statement].
+  - match goal with Ho : opt _ _ _ _ _ |- _ => destruct Ho end; kchain; try kuse2 k_extern_name; kchain;
+      kuse2 k_import_type; kchain; (split; [|assumption]); intros nk; kasm.
+  - exact (k_type_statement _ _ _ H Hi).
+  - kchain. split; [|assumption]. intros nk. kasm.
+  - kchain.
+    match goal with Ho : g_export_options _ _ _ |- _ => destruct Ho end; kchain; try kuse2 k_extern_name; kchain;
+      (split; [|assumption]); intros nk; kasm.
+Qed.
+
+Theorem k_document ts x : g_document d ts [] x -> Inv src ts -> forall nk, kq (p_document fx x) nk.
+Proof.
+  intros H Hi nk. unfold g_document in H. unpack2. subst. unfold g_package_decl in *. unpack2. subst.
+  unfold p_document, p_directive. cbn [doc_docs doc_directive pd_package pd_targets doc_statements fx_targets_keyword fx repaired].
+  match goal with Hp : g_package_name _ _ _ |- _ => destruct Hp as (tp & Htp & _) end.
+  match goal with Ho : opt _ _ _ _ _ |- _ => destruct Ho as [|? ? ? ? ? ? (tq & Htq & _)] end; kchain;
+  (match goal with Hm : many _ ?a _ _, Hi' : Inv src ?a |- _ => destruct (k_many _ _ k_statement _ _ _ Hm Hi') as [Hq Hi2] end);
+  specialize (Hq true); kasm.
+Qed.
+
+(** From the commands to the pieces. *)
+Lemma layout_kq_kwcb cs : kq cs None -> forall ind b ps, layout src ind b cs = Some ps -> kwcb ps = true.
+Proof.
+  induction cs as [|c cs IH]; intros Hk ind b ps H; cbn [layout] in H; [inversion H; reflexivity|].
+  destruct c.
+  - cbn [kq] in Hk. destruct (layout src ind b cs) eqn:E; inversion H; subst.
+    destruct k; cbn [kwcb]; eauto.
+    assert (Ek : kw_text (fixed_text TIdent) = false) by (vm_compute; reflexivity). rewrite Ek. cbn [negb orb andb]. eauto.
+  - destruct (slice src sp) as [t|] eqn:Es; [|discriminate]. destruct (layout src ind b cs) as [ps'|] eqn:E; inversion H; subst.
+    destruct k; cbn [kq kwcb] in *; eauto.
+    destruct Hk as [Hk1 Hk2]. rewrite (IH Hk2 _ _ _ E), andb_true_r.
+    destruct Hk1 as [Hp|Hn]; [rewrite (Hp t Es); reflexivity|].
+    destruct cs as [|c2 cs2]; [discriminate Hn|]. destruct c2 as [k2|k2 sp2| | | | | | |]; try contradiction.
+    rewrite Hn in E. cbn [layout] in E. destruct (layout src ind b cs2); inversion E; subst. apply orb_true_r.
+  - cbn [kq] in Hk. destruct (layout src ind b cs) eqn:E; inversion H; subst. cbn [kwcb]. eauto.
+  - cbn [kq] in Hk. destruct (layout src ind false cs) eqn:E; [|destruct b; discriminate]. destruct b; inversion H; subst; cbn [kwcb]; eauto.
+  - cbn [kq] in Hk. destruct b; [eauto|]. destruct (layout src ind true cs) eqn:E; inversion H; subst. cbn [kwcb]. eauto.
+  - cbn [kq] in Hk. destruct (layout src ind false cs) eqn:E; inversion H; subst. cbn [kwcb]. eauto.
+  - cbn [kq] in Hk. destruct (layout src ind b cs) eqn:E; inversion H; subst. cbn [kwcb]. eauto.
+  - cbn [kq] in Hk. eauto.
+  - cbn [kq] in Hk. eauto.
+Qed.
+
 End Colon.
+
+(** The side condition of [render_lex] holds for every parsed document. *)
+Theorem parsed_kwcb src doc r ps :
+  parse_document impl_flags impl_cfg src = POk doc r -> print_pieces repaired src doc = Some ps -> kwcb ps = true.
+Proof.
+  intros H Hp. unfold print_pieces in Hp. apply parse_document_sound in H. destruct H as [_ H].
+  change (cfg_with impl_flags impl_cfg) with impl_cfg in H.
+  eapply layout_kq_kwcb; [|exact Hp]. eapply k_document; [exact H|apply lex_inv].
+Qed.
